@@ -32,8 +32,11 @@ Fixpoint word_bytes (fuel : nat) (w : int) (acc : list byte) : list byte :=
            else word_bytes f (w >> 8)%uint63 (small_Z 8 (w land 255)%uint63 :: acc)
   end.
 
-Inductive seg := Lit (ws : list int) | Run (c : byte) (k : N).
+(** [Cyc ws k]: the bytes of [Lit ws] repeated k times (strings of one multi-byte character,
+    vectors of equal numbers: periodic but not constant) *)
+Inductive seg := Lit (ws : list int) | Run (c : byte) (k : N) | Cyc (ws : list int) (k : N).
 Arguments Lit ws%uint63.
+Arguments Cyc ws%uint63 k%N.
 Definition nrep (c : byte) (k : N) : list byte := N.iter k (cons c) [].
 Fixpoint words_bytes (ws : list int) (tl : list byte) : list byte :=
   match ws with
@@ -45,8 +48,11 @@ Fixpoint expand (ss : list seg) : list byte :=
   | [] => []
   | Lit ws :: r => words_bytes ws (expand r)
   | Run c k :: r => nrep c k ++ expand r
+  | Cyc ws k :: r => N.iter k (words_bytes ws) (expand r)
   end.
 Definition str (ss : list seg) : value := VStr (expand ss).
+(** Vec of k copies of one value *)
+Definition vrep (k : N) (v : value) : value := VVec (N.iter k (cons v) []).
 
 (** integer operand: sign and limbs in base 10^18 *)
 Definition zv (neg : bool) (limbs : list int) : Z :=
@@ -63,8 +69,10 @@ Inductive obs :=
 | Panic
 | Ret (snk : list byte) (flushes : list Z) (same_as_to_string : bool) (read_back : option bool)
 | TooLong (n : Z).  (* the sink received n bytes, too irregular to embed in a case term (never
-                       happens on a correct writer: the generator makes long outputs from runs only);
-                       only the length is compared *)
+                       happens on a correct writer: the generator makes long outputs from runs and
+                       periodic stretches only); only the length is compared.  The case printer uses
+                       it only when both executor verdicts are positive, otherwise it emits a [Ret]
+                       with the head of the bytes and the negative verdict *)
 
 Record case := Case { c_buf : Z; c_dbg : bool; c_ops : list op; c_obs : obs }.
 
